@@ -179,6 +179,9 @@ def specNote (v : VSt) (goid : Nat) (point : String) (wid : Nat) (n : Nat) : VSt
   | "h.shutdown.hung" => (v, "?viol:shutdown-did-not-return")
   | "h.serve.hung" => (v, "?viol:serve-did-not-return")
   | "h.serve.early" => (v, "?viol:serve-returned-while-a-callback-was-still-running-shutdown-not-drained")
+  | "h.serve2.accepted" => (v, "?viol:second-serve-on-a-running-service-was-not-refused")
+  | "h.refused.running" => (v, "?viol:callback-submitted-to-a-running-service-never-ran")
+  | "h.shutdown.refused" => (v, "?viol:shutdown-refused-on-a-running-service")
   | "h.panic" => (v, "?viol:api-call-panicked")
   | "h.serve.panic" => (v, "?viol:serve-panicked-while-shutdown-ran-concurrently")
   | "h.connclosed" => if n = 1 then (v, "?ok") else (v, s!"?viol:connection-closed-{n}-times")
@@ -203,7 +206,7 @@ def verdictFor (mode spec : String) (restarted : Bool) : String :=
   let has (w : String) : Bool := (spec.splitOn w).length > 1
   let c01 := has "two-callbacks-of-group"
   let c02 := has "started-twice" || has "-before-" || has "never-accepted" || has "never-started"
-  let c03 := has "shutdown" || has "serve-did-not-return" || has "panicked" || has "connection-closed"
+  let c03 := has "shutdown" || has "serve-did-not-return" || has "panicked" || has "connection-closed" || has "second-serve" || has "never-ran"
   match mode with
   | "pool01" => if c01 then spec else "?ok"
   | "pool02" => if c02 then spec else "?ok"
